@@ -380,18 +380,22 @@ def correspondence_scalar(ctx, gen):
             kind, v = call(u.logabsdet, t)
             reqs.append({'op': 'c20.logabsdet', 'i': [n], 'data': [int(v_) for v_ in M.reshape(-1)]})
             metas.append(('logabsdet', n, M, kind, v, changed(t, s)))
-    for (N, D) in [(1, 1), (2, 1), (3, 2), (5, 3), (4, 2)]:
+    # (N, D, distance of the query from the samples): near queries, and queries tens of kernel bandwidths away, where every kernel
+    # term underflows unless the log-sum-exp is shifted (the log-density there is an ordinary negative number)
+    for (N, D, far) in [(1, 1, 0), (2, 1, 0), (3, 2, 0), (5, 3, 0), (4, 2, 0), (5, 2, 1), (8, 1, 1), (3, 3, 1), (6, 2, 2)]:
         for prec in ('f32', 'f64'):
             dt = torch.float32 if prec == 'f32' else torch.float64
             sm = torch.randn(N, D, generator=gen, dtype=torch.float64).to(dt)
             q = torch.randn(D, generator=gen, dtype=torch.float64).to(dt)
+            if far:
+                q = q + (14.0 if prec == 'f32' else 38.0) * far
             ss, sq = snap(sm), snap(q)
             kind, v = call(u.gaussian_kde_log_eval, sm, q)
             std = N ** (-1 / (D + 4))
             dconst = float(-np.log(N) - (D / 2) * np.log(2 * np.pi) - D * np.log(std))
             reqs.append({'op': 'c20.kde', 'p': prec, 'i': [N, D], 'f': [bits.tensor_bits(sm), bits.tensor_bits(q)],
                          'd': [bits.f64_bits(std), bits.f64_bits(dconst)]})
-            metas.append(('kde', (N, D), prec, kind, v, changed(sm, ss) + changed(q, sq)))
+            metas.append(('kde', (N, D, far), prec, kind, v, changed(sm, ss) + changed(q, sq)))
     for n in (1, 2, 3, 5, 8):
         torch.manual_seed(ctx.seed * 17 + n)
         kind, q = call(u.random_orthogonal, n)
@@ -450,16 +454,16 @@ def correspondence_scalar(ctx, gen):
             elif not abs(iv - mv) <= 1e-9 * (1 + abs(mv)):
                 ctx.disagree(fn, case, iv, mv, 'log|det| differs')
         elif fn == 'kde':
-            _, (N, D), prec, kind, v, _ = meta
-            case = {'function': 'gaussian_kde_log_eval', 'N': N, 'D': D, 'prec': prec}
+            _, (N, D, far), prec, kind, v, _ = meta
+            case = {'function': 'gaussian_kde_log_eval', 'N': N, 'D': D, 'prec': prec, 'far_query': far}
             mv = bits.dec(resp['f'][0], prec)[0]
             if kind != 'ok':
-                ctx.case(key=('kde-err', N, D, prec), branch='kde/%s/error:%s' % (prec, kind), nontrivial=False)
+                ctx.case(key=('kde-err', N, D, far, prec), branch='kde/%s/error:%s' % (prec, kind), nontrivial=False)
                 ctx.disagree(fn, case, kind, mv, 'implementation raised, model returned a value')
                 continue
             iv = float(v)
-            ctx.case(key=('kde', N, D, prec), branch='kde/%s/ok' % prec, nontrivial=True,
-                     sample=dict(case, impl=iv, model=mv) if (N, D) == (3, 2) else None)
+            ctx.case(key=('kde', N, D, far, prec), branch='kde/%s/%s' % (prec, 'far' if far else 'ok'), nontrivial=True,
+                     sample=dict(case, impl=iv, model=mv) if (N, D, far) == (3, 2, 0) else None)
             want = torch.float32 if prec == 'f32' else torch.float64
             tol = (2e-5 if prec == 'f32' else 1e-10) * (1 + abs(mv))
             if not abs(iv - mv) <= tol:
@@ -794,11 +798,11 @@ def oracle_scalar(report, seed=0):
                 report('logabsdet raised', case, {'function': 'logabsdet', 'symptom': 'raises'}); continue
             if d != 0 and not abs(float(v) - math.log(abs(d))) <= 1e-9 * (1 + abs(math.log(abs(d)))):
                 report('logabsdet = %r, log|det| = %r (det = %d)' % (float(v), math.log(abs(d)), d), case, {'function': 'logabsdet', 'symptom': 'wrong-value'})
-    for (N, D) in [(1, 1), (3, 2), (5, 3)]:
+    for (N, D, far) in [(1, 1, 0.0), (3, 2, 0.0), (5, 3, 0.0), (5, 2, 14.0), (8, 1, 20.0), (200, 2, 10.0)]:
         sm = torch.randn(N, D, generator=gen)
-        q = torch.randn(D, generator=gen)
+        q = torch.randn(D, generator=gen) + far
         kind, v = call(u.gaussian_kde_log_eval, sm, q)
-        case = {'function': 'gaussian_kde_log_eval', 'N': N, 'D': D, 'dtype': 'float32'}
+        case = {'function': 'gaussian_kde_log_eval', 'N': N, 'D': D, 'dtype': 'float32', 'samples': sm.reshape(-1).tolist()[:16], 'query': q.tolist()}
         std = N ** (-1 / (D + 4))
         a = (q.double() - sm.double()).numpy()
         comp = -0.5 * (a * a).sum(-1) / std ** 2 - math.log(N) - D / 2 * math.log(2 * math.pi) - D * math.log(std)
